@@ -535,7 +535,7 @@ static void entropy_gen(Plan *p, uint64_t base_seed, uint64_t variant, int tier)
 	if (N == 0) return;
 	uint32_t m = rng_below(&v, 100);
 	if (!p->op && variant >= 36) {
-		p->defect = EM_PAIR;
+		p->defect = variant >= 38 ? EM_HISTORY : EM_PAIR;     /* history: two connections served from the same two contexts */
 		p->efail_node = -1;
 		return;
 	}
@@ -574,6 +574,93 @@ static const char *draw_site(Node *n, char *buf, size_t len)
 	for (int i = 0; i < idx; i++) if (n->drawlen[i] == n->drawlen[idx]) ord++;
 	snprintf(buf, len, "len%u#%d", n->drawlen[idx], ord);
 	return buf;
+}
+
+/* ---- two connections, one after the other, from the same client and server contexts ----
+ * Whatever a context caches must not make the second connection repeat an ephemeral value of the first: Hello
+ * randoms, ephemeral EC points and — recovered from the signatures on the wire with the signer's private key, which
+ * the harness holds — the SM2 signing nonces  k = s + (s + r) d  mod n. */
+static void twice_task(void *arg)
+{
+	Endpoint *ep = arg;
+	ep_task(ep);
+	ep_task(ep + 2);
+}
+
+static int sig_nonce(const uint8_t *sig, size_t siglen, const SM2_KEY *key, uint8_t k32[32])
+{
+	SM2_SIGNATURE s; const uint8_t *q = sig; size_t n = siglen;
+	sm2_z256_t r, sv, t, k;
+	if (sm2_signature_from_der(&s, &q, &n) != 1 || n) return 0;
+	sm2_z256_from_bytes(r, s.r); sm2_z256_from_bytes(sv, s.s);
+	sm2_z256_modn_add(t, sv, r);
+	sm2_z256_modn_mul(t, t, key->private_key);
+	sm2_z256_modn_add(k, sv, t);
+	sm2_z256_to_bytes(k, k32);
+	return 1;
+}
+
+static void two_connections_one_context(const Plan *p, RunResult *r)
+{
+	const CredSet *cs = creds_get((int)p->depth, p->proto == P_TLCP);
+	static Plan q;
+	q = *p; q.efail_node = -1; q.efail_at = -1; q.eburst_at = -1; q.interpose = 0; q.cred_mode = 0;
+	r->nontrivial = 1;
+	r->nontrivial_id = r->fault_id = hash_bytes(0x91b, (int64_t[]){ p->proto, p->mutual, p->ent_c, p->ent_s }, 32);
+	arena_begin();
+	sim_apply_plan(&q);
+	net_reset(); mon_reset(); cap_reset();
+	NetKnobs kn; memset(&kn, 0, sizeof(kn));
+	kn.seg_style = (int)q.seg_style; kn.max_chunk = (int)q.max_chunk; kn.max_lat_ns = q.max_lat_ns;
+	Conn *c1 = net_conn_new(&kn, (uint64_t)q.net_seed), *c2 = net_conn_new(&kn, (uint64_t)q.net_seed + 1);
+	int ok = ep_setup(&g_ep[0], 0, c1, &q, cs, 0) == 1 && ep_setup(&g_ep[1], 1, c1, &q, cs, 1) == 1
+		&& ep_setup_same_ctx(&g_ep[2], &g_ep[0], c2) == 1 && ep_setup_same_ctx(&g_ep[3], &g_ep[1], c2) == 1;
+	if (ok) {
+		g_sim.next_event = net_next_event;
+		g_sim.on_quiesce = quiesce_handler;
+		g_ep[0].task = sim_spawn("client", 0, twice_task, &g_ep[0]);
+		g_ep[1].task = sim_spawn("server", 1, twice_task, &g_ep[1]);
+		sim_run();
+	}
+	int done = ok && g_ep[0].hs_ret == 1 && g_ep[1].hs_ret == 1 && g_ep[2].hs_ret == 1 && g_ep[3].hs_ret == 1 && !g_sim.step_capped;
+	char what[200] = "";
+	if (done) {
+		for (int d = 0; d < 2 && !what[0]; d++) {
+			const Pipe *a = &c1->pipe[d], *b = &c2->pipe[d];
+			const SM2_KEY *signer = d == DIR_S2C ? &cs->srv_sign.key : &cs->cli_sign.key;
+			size_t ro = q.proto == P_TLS13 ? 11 : 15, rl = q.proto == P_TLS13 ? 32 : 28;
+			if (a->sent_len > 43 && b->sent_len > 43 && !memcmp(a->sent + ro, b->sent + ro, rl))
+				snprintf(what, sizeof(what), "hello_random:%s", d ? "server" : "client");
+			/* signatures in plaintext handshake messages (ServerKeyExchange, CertificateVerify): the trailing uint16 vector */
+			uint8_t k[2][4][32]; int nk[2] = { 0, 0 };
+			for (int w = 0; w < 2; w++) {
+				const Pipe *pp = w ? b : a;
+				for (int i = 0; i < pp->nrecs && i < MAX_REC && nk[w] < 4; i++) {
+					const RecInfo *ri = &pp->recs[i];
+					if (ri->type != TLS_record_handshake || ri->len < 9 + 70 || !ri->in_hs) continue;
+					const uint8_t *m = pp->sent + ri->off;
+					if (m[5] != TLS_handshake_server_key_exchange && m[5] != TLS_handshake_certificate_verify) continue;
+					size_t bl = ri->len - 9;
+					for (size_t at = 0; at + 2 < bl; at++)
+						if (((size_t)m[9 + at] << 8 | m[9 + at + 1]) == bl - at - 2 && m[9 + at + 2] == 0x30) {
+							if (sig_nonce(m + 9 + at + 2, bl - at - 2, signer, k[w][nk[w]])) nk[w]++;
+							break;
+						}
+				}
+			}
+			for (int i = 0; i < nk[0] && !what[0]; i++)
+				for (int j = 0; j < nk[1]; j++)
+					if (!memcmp(k[0][i], k[1][j], 32)) snprintf(what, sizeof(what), "signature_nonce:%s", d ? "server" : "client");
+			if (nk[0] && nk[1]) g_sim.probes[PR_EPH_VALIDATED]++;      /* signatures of both connections were found and opened */
+		}
+	}
+	for (int i = 0; i < 4; i++) ep_free(&g_ep[3 - i]);
+	arena_end();
+	if (!done) { r->twin_failed = 1; return; }
+	if (what[0]) {
+		rr_violation(r, "x", "proto=%s: two connections served from the same context repeat an ephemeral value (%s)", g_proto_names[p->proto], what);
+		snprintf(r->vclass, sizeof(r->vclass), "entropy_reuse:%s:%s", what, g_proto_names[p->proto]);
+	}
 }
 
 static void entropy_run(const Plan *p, RunResult *r)
@@ -671,7 +758,11 @@ static void entropy_run(const Plan *p, RunResult *r)
 						return;
 					}
 		}
-		if (n->efail_fired && g_or.nout >= 1 && g_or.out[g_or.nout - 1].status == 1) {
+		/* an implementation may ask again after an interrupted or would-block call and carry on with the refilled
+		 * buffer: a retry (the very next draw has the failed draw's size) that leads to a valid result is no violation */
+		int retried_ok = n->efail_retried && !p->efail_rest && (p->efail_errno == 4 || p->efail_errno == 11)
+			&& g_or.nout >= 1 && g_or.out[g_or.nout - 1].status == 1 && g_or.out[g_or.nout - 1].valid;
+		if (n->efail_fired && g_or.nout >= 1 && g_or.out[g_or.nout - 1].status == 1 && !retried_ok) {
 			rr_violation(r, "x", "%s reported success although its entropy draw %lld (%s) failed", opn, (long long)p->efail_at, draw_site(n, site, sizeof(site)));
 			snprintf(r->vclass, sizeof(r->vclass), "entropy_fail_ignored:%s:%s", opn, draw_site(n, site, sizeof(site)));
 		}
@@ -680,6 +771,7 @@ static void entropy_run(const Plan *p, RunResult *r)
 
 	/* ---- handshake mode ---- */
 	static HonestOut o;
+	if (p->defect == EM_HISTORY) { two_connections_one_context(p, r); return; }
 	if (p->defect == EM_PAIR) {
 		/* stream pairs on whole connections: (A,A) identical wire transcript; (A,B) every ephemeral public
 		 * value differs; within one connection no record IV repeats */
@@ -844,6 +936,12 @@ static void entropy_run(const Plan *p, RunResult *r)
 	r->nontrivial_id = r->fault_id;
 	if (!n->efail_fired) return;
 	draw_site(n, site, sizeof(site));
+	/* EINTR / EAGAIN answered by an immediate retry of the same draw: the connection may go on */
+	if (n->efail_retried && !p->efail_rest && (p->efail_errno == 4 || p->efail_errno == 11)) {
+		RunResult rr; memset(&rr, 0, sizeof(rr));
+		honest_oracle(p, &o, &rr);
+		if (!rr.violated) return;
+	}
 	/* which phase was the endpoint in when the draw failed? */
 	int in_hs = !(o.hs_ret[node] == 1 && o.hs_done_step[node] <= n->efail_step);
 	const char *phase = in_hs ? "handshake" : "data";
